@@ -28,7 +28,7 @@ def alphabets(ctx):
     rate = _pm([0, 1, P29, P30, P30 - 1, P31 - 1, 123456789, 1800095000]) | {80000000, 500000}
     accel = _pm([0, 1, P27, P27 + 1, P28, P29, P30, P30 + 1, 26012345, 35111222, 50353403,
                  77012345]) | {2, -3}
-    accum = ["clear", 0, 1, P30, P31 - 1]
+    accum = [core.RUNTIME_CLEAR, 0, 1, P30, P31 - 1]
     budgets = list(range(1, 13)) + [17, 100, 1000]
     long_budgets = [1, 2, 3, 1000, 10 ** 5]
     max_ticks = 4096
@@ -257,7 +257,7 @@ def cannot_move_cases():
 def _cannot_move(part):
     ebb_calc, _m = _lib()
     for steps, rate, accel in cannot_move_cases():
-        for accum in ("clear", 0, 12345):
+        for accum in (core.RUNTIME_CLEAR, 0, 12345):
             try:
                 got = tuple(ebb_calc.calculate_lm(steps, rate, accel, accum))
             except Exception as exc:            # pylint: disable=broad-except
